@@ -23,8 +23,9 @@ QmcProofs/LawRand.lean):
 * `Draw.panic`   — sets the `panicked` flag: no mass (the real code aborts).
 * `Draw.hbPick ws thr` — the two `gen_range` calls of the heat-bath insertion (`u ∈ [0,1)`, `x ∈ [0,W)`),
   the cumulative-table search and the rejection test `u·ws[b] < thr b`; outcome `2b+1` = bond `b`
-  accepted, `2b` = bond `b` rejected; idealised (continuous-uniform) weights `ws[b]/W · thr b/ws[b]` and
-  `ws[b]/W · (1 − thr b/ws[b])`.
+  accepted, `2b` = bond `b` rejected; idealised (continuous-uniform) weights `ws[b]/W · a_b` and
+  `ws[b]/W · (1 − a_b)` with `a_b = thr b/ws[b]` clipped to `[0,1]`; no mass unless the table is valid
+  (`W > 0`, else `gen_range(0.0..W)` panics; entries `≥ 0`, else the cumulative column is not sorted).
 
 Core Lean only.
 -/
@@ -97,8 +98,9 @@ def Draw.hbPick (ws : BW) (ok : Nat → Bool) (thr : Nat → Rat) : Draw where
   n := 2 * ws.length
   w := fun i =>
     let b := i / 2
-    let acc := thr b / ws.getD b 0
-    (ws.getD b 0 / ws.sum) * (if i % 2 = 1 then acc else 1 - acc)
+    let mw := ws.getD b 0
+    let acc : Rat := if thr b ≤ 0 then 0 else if mw ≤ thr b then 1 else thr b / mw
+    if 0 < ws.sum ∧ ∀ x ∈ ws, 0 ≤ x then (mw / ws.sum) * (if i % 2 = 1 then acc else 1 - acc) else 0
 
 namespace PT
 variable {α β : Type}
